@@ -224,7 +224,7 @@ func vpMsgTerm(r *raft, pre vpRec, x *pb.Message, m *pb.Message) {
 // ---------------------------------------------------------------------------
 
 func vpDefaultOpts(role StateType) vpOpts {
-	o := vpOpts{role: role, shapes: []int{0}, ls: 1, lu: 1, noSizeLimit: true}
+	o := vpOpts{role: role, shapes: []int{0}, ls: 1, lu: 1, noSizeLimit: true, concBase: true}
 	if role == StateLeader {
 		o.leaderPr = true
 		o.inflPeers = 1
@@ -239,6 +239,7 @@ func vpCell(role StateType, typ pb.MessageType, tier int) {
 	if tier >= 1 {
 		o.ls, o.lu = 2, 2
 		o.noSizeLimit = false
+		o.concBase = false
 		o.shapes = []int{0, 1, 3, 7}
 		if role == StateLeader {
 			o.symPeers = 2
